@@ -157,6 +157,7 @@ class Style:
             else 0
         )
 
+        link = link or None
         self._link = link
         self._link_id = f"{time()}-{randint(0, 999999)}" if link else ""
         self._hash = hash(
@@ -592,7 +593,7 @@ class Style:
         style._bgcolor = self._bgcolor
         style._attributes = self._attributes
         style._set_attributes = self._set_attributes
-        style._link = link
+        style._link = link or None
         style._link_id = f"{time()}-{randint(0, 999999)}" if link else ""
         style._hash = None
         style._null = False
